@@ -310,6 +310,10 @@ def syntax(out):
         ("exline-weak-tuple-and-body", ["{ p(X) } :- d(X).", ":~ p(X), r(X-1). [X@1,X*2]"], [["d", 1]], None),
         ("exline-weak-weight-and-tuple", ["{ p(X) } :- d(X).", ":~ p(X). [X+1@1,X*2]"], [["d", 1]], None),
         ("exline-weak-weight-and-condition", ["{ p(X) } :- d(X).", ":~ p(X), not r(Y) : d(Y), p(Y+1). [X+1@1,X]"], [["d", 1]], None),
+        ("exline-weak-priority-and-condition", ["{ p(X) } :- d(X).", ":~ p(X), not r(Y) : d(Y), p(Y+1). [X@X+1,X]"], [["d", 1]], None),
+        ("exline-weak-tuple-and-condition", ["{ p(X) } :- d(X).", ":~ p(X), r(Y) : p(Y+1), q(Y-1). [X@1,X*2]"], [["d", 1]], None),
+        ("exline-weak-negweight-and-condition", ["{ p(X) } :- d(X).", ":~ p(X), r(Y) : p(Y+1). [-X@1]"], [["d", 1]], None),
+        ("exline-rule-head-and-condition", ["{ p(X) } :- d(X).", "a(X+1) :- p(X), r(Y) : p(Y+1)."], [["d", 1]], None),
         ("exline-minimize-two-elements", ["{ p(X) } :- d(X).", "#minimize { X+1@1,X : p(X), r(X-1) ; X-1@2,X : p(X), d(X+1) }."], [["d", 1]], None),
         ("pingpong-chain-of-three", ["a(X+1) :- q(X).", "b(X+1) :- a(X).", "c(X+1) :- b(X).", "s(X) :- c(X+1)."], None, [["s", 1]]),
         ("pingpong-arith-in-condlit", ["a(X+1) :- q(X).", "s :- a(X+1) : q(X), r(X-1).", "t :- not a(X+1) : q(X)."], None, [["s", 0], ["t", 0]]),
